@@ -602,6 +602,20 @@ def _contiguous(m):
     return (lo_, hi_) if m == (1 << hi_) - (1 << lo_) else None
 
 
+_INT_LOWERED = []
+
+
+def reset_int_lowering():
+    """forget the integer lowerings made under LIA_FRESH_DIVMOD together with their pending definitional constraints, so that the
+    next exploration (over other variables) does not carry the quotient / remainder definitions of the previous ones"""
+    for n in _INT_LOWERED:
+        n._int = None
+        n._bv.pop("bint", None)
+    del _INT_LOWERED[:]
+    _DMFRESH.clear()
+    del _SIDE["int"][:]
+
+
 LIA_FRESH_DIVMOD = [False]  # opt-in (C09 Base58): floor division / remainder by constants as fresh integers + defining axioms
 _DMFRESH = {}
 
@@ -650,6 +664,7 @@ def lowi(n):
         r = _lowi_fresh(n)
         if r is not None:
             n._int = r
+            _INT_LOWERED.append(n)
             return r
     if op == "const":
         r = z3.IntVal(a[0])
@@ -717,6 +732,8 @@ def lowi(n):
     else:
         raise Unsupported(f"int lowering of {op}")
     n._int = r
+    if LIA_FRESH_DIVMOD[0]:
+        _INT_LOWERED.append(n)
     return r
 
 
@@ -769,6 +786,8 @@ def lowb(p, mode):
     else:
         raise Unsupported(f"bool lowering of {op}")
     p._bv[key] = r
+    if mode == "int" and LIA_FRESH_DIVMOD[0]:
+        _INT_LOWERED.append(p)
     return r
 
 
